@@ -144,6 +144,7 @@ def run(ctx: Ctx):
     two_part_constructors(ctx, TimeDelta, drv)
     array_ops(ctx, Time, TimeDelta, drv)
     epoch_constructors(ctx, Time, TimeDelta, drv)
+    laws_every_format(ctx, Time, TimeDelta)
     mixed_scales(ctx, Time, TimeDelta)
     ctx.traces = ctx.evaluations
 
@@ -355,6 +356,66 @@ def array_ops(ctx, Time, TimeDelta, drv):
         for x in (r.jd1, r.jd2):
             if isinstance(x, np.ndarray) and any(np.shares_memory(x, y) for y in bufs if isinstance(y, np.ndarray) and y.size and x.size):
                 ctx.violate("result-aliases-operand", "the result of an operator shares memory with an operand", case)
+    ctx.traces += 1
+
+
+ALL_TIME_FMTS = ["jd", "mjd", "datetime", "gps_ws", "gps_seconds", "jyear", "decimalyear", "yydddsssss", "yyyydddsssss", "isot", "iso", "yday", "date"]
+
+
+def laws_every_format(ctx, Time, TimeDelta):
+    """the six laws at 1 ns with the epoch held in *every* format (the text formats isot / iso / yday / date / yy:ddd:sssss
+    included: the result of `t ± d` keeps the format of t) and durations that have parts finer than a microsecond"""
+    rng = ctx.rng
+    for _ in range(ctx.budget(260, 5000)):
+        fmt = rng.choice(ALL_TIME_FMTS)
+        scale = "gps" if fmt.startswith("gps") else rng.choice(SCALES)
+        scalar = rng.random() < 0.3
+        n = 1 if scalar else rng.randint(1, 4)
+        # (the gps formats exist from 1980-01-06 on, two-digit years denote 1969 .. 2068: keep t - 400 d and t + 400 d inside)
+        lo, hi = (45000, 75000) if fmt in ("yydddsssss",) or fmt.startswith("gps") else (37800, 87500)
+        mj = [rng.uniform(lo, hi) for _k in range(2 * n)]
+        dfmt = rng.choice(["days", "jd", "seconds"])
+        # durations with a part below the microsecond: k ns, a few hundred ns, a random fraction, on top of 0 .. +-400 days
+        dv = [rng.choice([0, 1, -1, 17, -400]) + rng.choice([1e-9, -3e-9, 123e-9, 4.56789e-7, 0.123456789123, -0.987654321987]) / 86400 * rng.choice([1, 1, 1000])
+              + rng.choice([0.0, 0.25, -0.5]) for _k in range(2 * n)]
+        case = {"laws_fmt": fmt, "scale": scale, "scalar": scalar, "mjd": mj, "d_days": dv, "dfmt": dfmt}
+        try:
+            def mk(ms):
+                base = Time(np.array(ms) + 0.0, fmt="mjd", scale=scale)
+                if fmt == "gps_ws":
+                    w, sec = np.array(base.gps_ws.week, dtype=float), np.array(base.gps_ws.seconds, dtype=float)
+                    return Time(float(w[0]), val2=float(sec[0]), fmt=fmt, scale=scale) if scalar else Time(w, val2=sec, fmt=fmt, scale=scale)
+                v = np.array(getattr(base, fmt))
+                return Time(v[0].item() if isinstance(v[0], np.generic) else v[0], fmt=fmt, scale=scale) if scalar else Time(v, fmt=fmt, scale=scale)
+
+            unit = 86400.0 if dfmt == "seconds" else 1.0
+            t, t2 = mk(mj[:n]), mk(mj[n:])
+            d = TimeDelta(dv[0] * unit if scalar else np.array(dv[:n]) * unit, fmt=dfmt, scale=scale)
+            e = TimeDelta(dv[n] * unit if scalar else np.array(dv[n:]) * unit, fmt=dfmt, scale=scale)
+        except Exception as ex:
+            ctx.violate(f"laws-format-raises:{fmt}", f"{type(ex).__name__}: {ex}", case)
+            continue
+        ctx.case(case)
+        ctx.count(f"laws-format:{fmt}")
+
+        def law(name, lhs, rhs):
+            for i, (x, y) in enumerate(zip(insts(lhs()), insts(rhs()))):
+                if abs(x - y) >= NS:
+                    ctx.violate(f"law:{name}", f"{name} violated by {float((x - y) * 86400):.3e} s with the epoch held as {fmt}", {**case, "i": i})
+                    return
+
+        try:
+            law("(t+d)-t=d", lambda: (t + d) - t, lambda: d)
+            law("(t-d)+d=t", lambda: (t - d) + d, lambda: t)
+            law("(t2-t1)+t1=t2", lambda: (t2 - t) + t, lambda: t2)
+            law("t-d=t+(-d)", lambda: t - d, lambda: t + (e - e - d))
+            law("d1+d2=d2+d1", lambda: d + e, lambda: e + d)
+            law("(d1+d2)-d2=d1", lambda: (d + e) - e, lambda: d)
+            law("(t+d)+e=t+(d+e)", lambda: (t + d) + e, lambda: t + (d + e))
+            if (t + d).fmt != t.fmt:
+                ctx.violate("result-format", f"t + d of an epoch held as {fmt} is held as {(t + d).fmt}", case)
+        except Exception as ex:
+            ctx.violate(f"raises:{type(ex).__name__}", f"arithmetic with the epoch held as {fmt} raised {type(ex).__name__}: {ex}", case)
     ctx.traces += 1
 
 
